@@ -49,6 +49,13 @@ def run(ctx):
         if okd:
             _decktext.corr_with_canon(ctx, exed, label="corr-lexer", mode="corrlex", env=env)
     ctx.stage_property_mode(exe, ["prop", ctx.seed, ctx.tier], env=env, timeout=6000)
+    # deck-text probes that need a time bound of their own (each call in a child under alarm):
+    # section-selective parseFile, INCLUDE cycles - see design.d/C20.lexer.md, second round
+    okp, exep, outp = vlib.build_harness("deck")
+    if okp:
+        ctx.stage_property_mode(exep, ["probe20", ctx.seed, ctx.tier], label="prop-decktext", timeout=1200)
+    else:
+        ctx.tie_broken("harness", "deck harness does not compile: " + outp[-2000:])
     return ctx.finish(trusted_base=TRUSTED)
 
 
